@@ -4,6 +4,7 @@ package otr3
 
 import (
 	"io"
+	"time"
 	"math/big"
 
 	"github.com/coyim/constbn"
@@ -200,6 +201,21 @@ func vhSymRatchet() vhRatchet {
 	return r
 }
 
+// vhSymRatchetLite: as vhSymRatchet, but in the quick tier only the two
+// positions "both have seen the peer's newest key" and "neither has" (the
+// multi-message scenarios are expensive); all four in the thorough tier.
+func vhSymRatchetLite() vhRatchet {
+	if vTier() == 1 {
+		return vhSymRatchet()
+	}
+	r := vhRatchet{oA: vU32("oA"), oB: vU32("oB")}
+	vAssume(vAll(r.oA >= 2, r.oB >= 2, r.oA < 0xfffffff0, r.oB < 0xfffffff0))
+	lag := uint32(vChoose("lag", 2))
+	r.tA = r.oB - lag
+	r.tB = r.oA - lag
+	return r
+}
+
 func vhInstallKeys(p *vhParty, o, t uint32, peerSide uint64) {
 	k := &p.c.keys
 	k.ourKeyID, k.theirKeyID = o, t
@@ -247,6 +263,22 @@ func vhFixOrder(a, b *vhParty) {
 	vNote("the two DH public keys of a key pair are distinct (equal keys = reflection, excluded)")
 }
 
+// vhNoHeartbeat: both sides have "just sent" something far in the future, so
+// no heartbeat is due during the scenario (heartbeats are covered by C04-step).
+func vhNoHeartbeat(a, b *vhParty) {
+	a.c.heartbeat.lastSent = time.Now().Add(240 * time.Hour)
+	b.c.heartbeat.lastSent = time.Now().Add(240 * time.Hour)
+}
+
+// vhQuickOrder: in the quick tier the multi-message scenarios fix one order
+// of the DH public values instead of splitting on every comparison.
+func vhQuickOrder() {
+	if vTier() == 0 {
+		vOrderHint(1)
+		vNote("quick tier: one fixed numeric order of the DH public values (all orders in the thorough tier)")
+	}
+}
+
 // vhSetCounters installs per-pair counters for the pair A uses when sending
 // now: sender counter cs (0 = fresh), receiver's highest seen counter cr < cs.
 func vhSetCounters(snd, rcv *vhParty, cs, cr uint64) {
@@ -255,6 +287,25 @@ func vhSetCounters(snd, rcv *vhParty, cs, cr uint64) {
 	sc.ourCounter = cs
 	rc := kr.counterHistory.findCounterFor(ks.theirKeyID, ks.ourKeyID-1)
 	rc.theirCounter = cr
+	// no other entry of the receiver describes the same pair (entries are unique per pair)
+	for _, e := range kr.counterHistory.counters {
+		if e != rc {
+			vAssume(!vAll(e.ourKeyID == rc.ourKeyID, e.theirKeyID == rc.theirKeyID))
+		}
+	}
+}
+
+// vhOtherCounters gives the party counter entries with arbitrary values for
+// all four key pairs it currently accepts (an arbitrary history has touched
+// any of them); vhSetCounters then constrains the pair in use.
+func vhOtherCounters(p *vhParty, name string) {
+	k := &p.c.keys
+	for _, o := range []uint32{k.ourKeyID, k.ourKeyID - 1} {
+		for _, t := range []uint32{k.theirKeyID, k.theirKeyID - 1} {
+			e := &keyPairCounter{ourKeyID: o, theirKeyID: t, ourCounter: vU64(name + "our"), theirCounter: vU64(name + "their")}
+			k.counterHistory.counters = append(k.counterHistory.counters, e)
+		}
+	}
 }
 
 func vhNoNUL(b []byte) {
